@@ -142,16 +142,16 @@ def gen_model_case(rng, tier):
             if F(r["ub"]) < 0:
                 r["ub"] = "0"
     extra = []
-    if rng.random() < 0.4 and len(rids) >= 2:
+    if rng.random() < 0.5 and len(rids) >= 2:
         a, b = rng.sample(rids, 2)
         lb, ub = rng.choice([(None, "5"), ("-5", "8"), ("-1", "20"), ("0", None), (None, "0"), ("0", "10"), ("-10", "0"), ("3", "3"), ("-2", "-2"),
-                                ("1", "1")])
+                                ("1", "1"), ("-1", "-1"), ("-3/2", "-3/2"), ("-4", "-4"), (None, "-1"), ("-6", "-2")])
         extra.append({"coefs": {a: "1", b: rng.choice(["1", "-1", "2"])}, "lb": lb, "ub": ub})
     method = rng.choice(["achr", "optgp"])
     return {"spec": spec, "extra": extra, "method": method, "n": rng.choice([1, 5, 12, 30]), "thinning": rng.choice([1, 2, 10]),
             "seed": rng.randint(1, 10 ** 6), "nproj": rng.choice([None, None, 3]), "processes": rng.choice([1, 1, 2, 3]) if method == "optgp" else 1,
             "via": rng.choice(["sample", "object", "object"]), "fluxes": rng.random() < 0.75, "aux_before_last": rng.random() < 0.25,
-            "second": rng.choice(["none", "sample", "sample", "batch"])}
+            "second": rng.choice(["none", "sample", "sample", "batch"]), "interleave": rng.random() < 0.3}
 
 
 def build(case):
@@ -236,6 +236,19 @@ def check_model_case(case):
                 # documented refusals: the flux cone is a single point / no warm-up points; numerically unstable region
                 return None, f"sampler-refused-{type(e).__name__}"
             if rep == 0 and s is not None and case.get("second", "none") != "none":
+                if case.get("interleave"):
+                    # another live sampler, of a wider model with the same reaction names, is used in between: each sampler walks its own polytope
+                    try:
+                        wide = json.loads(json.dumps(case["spec"]))
+                        for r in wide["rxns"]:
+                            r["lb"], r["ub"] = canon.num(3 * F(r["lb"]) - 1), canon.num(3 * F(r["ub"]) + 1)
+                        mB = coreops.build_model(wide)
+                        clsB = ACHRSampler if case["method"] == "achr" else OptGPSampler
+                        kwB = {"processes": 1} if case["method"] == "optgp" else {}
+                        sB = clsB(mB, thinning=case["thinning"], seed=case["seed"] + 1, **kwB)
+                        sB.sample(max(3, case["n"]))
+                    except (ValueError, RuntimeError):
+                        pass
                 # more samples from the same sampler object
                 try:
                     if case["second"] == "sample":
